@@ -796,5 +796,5 @@ func main() {
 			"the node answers a request according to the paging state it RECEIVES and logs statement/id, values, consistency, flags, page size, paging state (decoded by the independent reference codec)",
 			"stream-allocator atomics are not scheduling points (C08); map iteration order fixed; -race pass separate",
 			"page size does not constrain the script (a node may return fewer rows than the page size; scripts have <= 3 rows per page and page size >= 3)"},
-		defs, 60*time.Second, 6*time.Minute, nil)
+		defs, 60*time.Second, 20*time.Minute, nil)
 }
